@@ -129,6 +129,25 @@ def defective(ctx: Ctx):
     )
 
 
+    # "two linearly independent rows and columns" is a property of the table under ANY arrangement of its
+    # categories: a test that singles out a fixed row, column or cell of the counts (a constant index) is anchored
+    # on a position that may be empty - it cannot be a rank test.
+    m = ctx.repo.lookup(ci, "_is_defective")
+    counts_names = {"counts"} | {t.id for n in ast.walk(m.node) if isinstance(n, ast.Assign) and "weighted_counts" in u(n.value) for t in n.targets if isinstance(t, ast.Name)}
+    anchored = []
+    for n in ast.walk(m.node):
+        if isinstance(n, ast.Subscript) and (u(n.value) in counts_names or u(n.value).endswith("weighted_counts.blocks[0][0]")):
+            idx = n.slice.elts if isinstance(n.slice, ast.Tuple) else [n.slice]
+            if any(isinstance(i, ast.Constant) and isinstance(i.value, int) for i in idx):
+                anchored.append(u(n))
+    where = f"{MM}::_Zscores._is_defective"
+    if anchored:
+        ctx.violated("defective.arrangement-invariant", where, sorted(set(anchored)), "a function of the whole counts table (rank)",
+                     "the test is anchored on a fixed row / column / cell: when that one is empty every table looks defective (or none does), although two independent rows and columns exist")
+    else:
+        ctx.held("defective.arrangement-invariant", where, "no constant index into the counts table", "a function of the whole counts table (rank)")
+
+
 def pvalues(ctx: Ctx):
     ci = ctx.repo.cls(MM, "_Pvalues")
     m = ctx.repo.lookup(ci, "_calculate_pval")
